@@ -158,11 +158,20 @@ def rule_keys(model):
         # the (start, end) pair unpacked from the nearest preceding opt()
         for st in own_nodes(fi.node):
             if not (isinstance(st, ast.Assign) and
-                    isinstance(st.targets[0], ast.Subscript) and
-                    isinstance(st.targets[0].slice, ast.Constant) and
-                    isinstance(st.targets[0].slice.value, str)):
+                    isinstance(st.targets[0], ast.Subscript)):
                 continue
-            key = st.targets[0].slice.value
+            sl_ = st.targets[0].slice
+            if not isinstance(sl_, ast.Constant):
+                # 'previous' + '-sequence-size' (a helper inlined with a
+                # constant argument), f'{...}-sequence-size'
+                ok_, val_ = model.fold(sl_, fi)
+                if ok_ and isinstance(val_, str):
+                    sl_ = ast.copy_location(ast.Constant(value=val_), sl_)
+                    st.targets[0].slice = sl_
+            if not (isinstance(sl_, ast.Constant) and
+                    isinstance(sl_.value, str)):
+                continue
+            key = sl_.value
             kind = None
             for suf in ('-start-index', '-end-index', '-size'):
                 if key.endswith(suf) and key.split(suf)[0] in (
